@@ -75,6 +75,14 @@ struct Sections {
     outcome: [Sec; 3],
     cur: usize,
     recvs_in_unit: usize,
+    /// Valve: the receive (within a section) at which a challenge-then-silent section falls silent = number of challenges
+    /// the server issues per request
+    cts_at: usize,
+}
+
+impl Sections {
+    /// index, within a section, of the receive that carries the answer: after the challenges of the heavier schedule
+    fn answer_at(&self) -> usize { if self.valve && self.cts_at > 1 { self.cts_at } else { 0 } }
 }
 
 impl Policy for Sections {
@@ -102,8 +110,9 @@ impl Policy for Sections {
         match self.outcome[self.cur] {
             Sec::Valid => Pick::Head,
             Sec::Silent if n == 0 => Pick::Timeout { drop_all: true },
-            m if m.malformed() && n == 0 => Pick::Custom { data: m.datagram(self.valve, &pt.queue[0]), consume: true },
-            Sec::ChallengeThenSilent if self.valve && n == 1 => Pick::Timeout { drop_all: true },
+            // (the answer is what gets replaced, not a challenge that precedes it)
+            m if m.malformed() && n == self.answer_at() => Pick::Custom { data: m.datagram(self.valve, &pt.queue[0]), consume: true },
+            Sec::ChallengeThenSilent if self.valve && n == self.cts_at => Pick::Timeout { drop_all: true },
             Sec::ChallengeThenSilent if !self.valve && n == 0 => Pick::Timeout { drop_all: true },
             _ => Pick::Head,
         }
@@ -173,10 +182,13 @@ impl Prop for C11 {
                     What::Valve { players, rules, relation, check } => {
                         // path 0: the protocol's query function; path 1: the definition-driven entry point with every setting
                         // given; path 2 (check on only): the same with check_app_id left out, which means on
-                        for path in 0 .. 3u8 {
+                        // (path, challenges per request): the heavier challenge schedule (6 per players / rules request, still
+                        // below the client's limit of 10 in a row) on the protocol function only
+                        for (path, many) in [(0u8, false), (0, true), (1, false), (2, false)] {
                         if path == 2 && !check {
                             continue;
                         }
+                        let per_request = if many { 6usize } else { 1 };
                         let engine = if relation == 3 { valve::Engine::Source(None) } else { valve::Engine::new_with_dedicated(440, 441) };
                         let appid: u16 = match relation {
                             0 | 3 => 440,
@@ -187,12 +199,12 @@ impl Prop for C11 {
                         st.info.appid = appid;
                         st.info.edf.as_mut().unwrap().game_id = Some(appid as u64);
                         let t = rv::Transport {
-                            rounds: [0, usize::from(so_p == Sec::ChallengeThenSilent), usize::from(so_r == Sec::ChallengeThenSilent)],
+                            rounds: if many { [0, per_request, per_request] } else { [0, usize::from(so_p == Sec::ChallengeThenSilent), usize::from(so_r == Sec::ChallengeThenSilent)] },
                             ..Default::default()
                         };
                         let server = rv::ValveServer::new(st.clone(), t);
                         let gs = valve::GatheringSettings { players, rules, check_app_id: check };
-                        let policy = Sections { valve: true, outcome: [outcome[0], outcome[1], outcome[2]], cur: 0, recvs_in_unit: 0 };
+                        let policy = Sections { valve: true, outcome: [outcome[0], outcome[1], outcome[2]], cur: 0, recvs_in_unit: 0, cts_at: per_request };
                         let x = run_query(Box::new(server), Box::new(policy), Chooser::new(&[]), || {
                             if path == 0 {
                                 return valve::query(&addr(), engine, Some(gs), None);
@@ -244,7 +256,7 @@ impl Prop for C11 {
                                 expect = Ok(resp);
                             }
                         }
-                        let cfg = format!("players {players:?}/{} rules {rules:?}/{}{}", section_kind(so_p), section_kind(so_r), ["", "; through the definition-driven entry point", "; through the definition-driven entry point with check_app_id left out"][path as usize]);
+                        let cfg = format!("players {players:?}/{} rules {rules:?}/{}{}", section_kind(so_p), section_kind(so_r), ["", "; through the definition-driven entry point", "; through the definition-driven entry point with check_app_id left out"][path as usize].to_string() + if many { "; 6 challenges per request" } else { "" });
                         let mut bad: Option<(String, String)> = None;
                         if players == GatherToggle::Skip && sent_kinds.contains(&0x55) {
                             bad = Some(("skipped-section-requested:valve:players".into(), "a players request was sent although the toggle is Skip".into()));
@@ -287,7 +299,7 @@ impl Prop for C11 {
                         let server = ru::U2Server { state: st.clone(), rule_packets: 1, player_packets: 1 };
                         let gs = unreal2::GatheringSettings { players, mutators_and_rules: rules };
                         // unit 1 = rules, unit 2 = players
-                        let policy = Sections { valve: false, outcome: [Sec::Valid, so_r, so_p], cur: 0, recvs_in_unit: 0 };
+                        let policy = Sections { valve: false, outcome: [Sec::Valid, so_r, so_p], cur: 0, recvs_in_unit: 0, cts_at: 1 };
                         let x = run_query(Box::new(server), Box::new(policy), Chooser::new(&[]), || unreal2::query(&addr(), &gs, None));
                         ctx.account(&x, 0);
                         let sent_kinds: Vec<u8> = x.log.iter().filter_map(|e| if let WireEvent::Send { bytes, .. } = e { bytes.get(4).copied() } else { None }).collect();
